@@ -4,6 +4,10 @@
 import json, subprocess
 props = [json.loads(l) for l in open('/verif/properties.jsonl')]
 claimed = {
+ 'C01': dict(tech='contract-based deductive verification: sender contracts over ghost transport and output streams (wire bytes, open-message flag), writer interface contracts, VCs from go/ssa, z3/cvc5',
+             text='Proved for all inputs: each packet handed to the transport has header length 8 + len(body) in big-endian at bytes 2..3, the channel message type and id, the end-of-message flag exactly when its body is shorter than the body size in force, and its bytes are appended to the wire with the earlier bytes untouched; a successful flush leaves no message open, i.e. the last packet written carries the end-of-message flag for every total length including exact multiples of the packet body size; every package, format and data writer only appends to the output stream it is given. Proof level for these per-function statements.',
+             note='Not mechanised: equality of the concatenated bodies on the wire with the packages\' encodings across several flush calls, and the packet-queue invariant at the deferred discard in sendPackets (unclaimed). Assumes the io.Writer contract, one sender per channel, a stable packet size while a message is queued, structurally valid client-built packages. A genuine defect (no end-of-message packet for messages that are exact multiples of the body size) was repaired, see known_findings.txt.',
+             ref='3 C01'),
  'C07': dict(tech='contract-based deductive verification: interface contract on Package/FieldFmt/FieldData.ReadFrom over a ghost byte stream, VCs from go/ssa, z3/cvc5',
              text='Every parser implementation is proved, for all inputs and loop iterations, to return an error matching ErrNotEnoughBytes whenever the abstract stream ran dry during the call, and to leave the dry flag unchanged on success. Proof level because the claim is a per-function postcondition that the VC generator discharges without bounds.',
              note='Assumes the BytesChannel contract (stream semantics) for the channel passed in, closed world of FieldFmt/FieldData/Package implementations, sentinel error variables never reassigned, integers modelled mathematically with explicit wrap, goroutines not modelled. Re-parse after rollback (fresh package per attempt) is part of C02.',
